@@ -101,10 +101,14 @@ def _align(rc: RuleCtx, mf: rm.LoopModel, mg: rm.LoopModel, oname: str):
         for kw in call.keywords:
             if kw.arg == "key":
                 lam = kw.value
-                key = ast.dump(lam.body) if isinstance(lam, ast.Lambda) else ast.dump(lam)
-                if isinstance(lam, ast.Lambda) and len(lam.args.args) == 1:
-                    # alpha-normalise the lambda parameter
-                    key = key.replace(repr(lam.args.args[0].arg), "'_'")
+                fld = rm.sort_key_field(mf.fi, lam) or rm.sort_key_field(mg.fi, lam)
+                if fld is not None:
+                    key = fld                       # by value: the tuple field the stack is ordered on
+                else:
+                    key = ast.dump(lam.body) if isinstance(lam, ast.Lambda) else ast.dump(lam)
+                    if isinstance(lam, ast.Lambda) and len(lam.args.args) == 1:
+                        # alpha-normalise the lambda parameter
+                        key = key.replace(repr(lam.args.args[0].arg), "'_'")
             elif kw.arg == "reverse":
                 rev = ast.unparse(kw.value)
                 rev = {"False": False, "True": True}.get(rev, rev)
